@@ -39,10 +39,14 @@ def scenes(draw, max_objects=14, min_objects=3):
     x, y, level = (i % cols) * spacing, ((i // cols) % cols) * spacing, i // (cols * cols)
     z = r * 0.9 + level * 0.17
     if cluster:
-      x, y, z = (i % 4) * 0.01, ((i // 4) % 4) * 0.01, r * 0.9 + (i // 16) * 0.01
+      # no deep penetration (that honestly blows up); a large margin makes every pair pass the broadphase and produce
+      # (mostly inactive) contacts
+      x, y, z = (i % 4) * 0.26, ((i // 4) % 4) * 0.26, r * 0.98 + (i // 16) * 0.26
     ga = dict(type=gt, size=fmt(size), condim=str(draw(st.sampled_from([1, 3, 3, 4, 6]))))
     if draw(st.integers(0, 4)) == 0:
       ga['margin'] = '0.02'
+    if cluster:
+      ga['margin'] = '0.6'
     world += '<body pos="%s"><freejoint/><geom%s/></body>' % (fmt([x, y, z]), _attrs(ga))
     labels.add('geom:' + gt)
   extra = ''
